@@ -326,8 +326,22 @@ def _register():
             RECORD.append(('vrec3', self.match, None))
             return self.match.startswith('t')
 
+    class Rec43(Rec3):
+        # a modern 4-argument check deriving from a legacy 3-argument one
+        def __call__(self, target, creds, enforcer, current_rule=None):
+            RECORD.append(('vrec43', self.match, current_rule))
+            return self.match.startswith('t')
+
+    class Rec34(Rec4):
+        # ... and the other way round
+        def __call__(self, target, creds, enforcer):
+            RECORD.append(('vrec34', self.match, None))
+            return self.match.startswith('t')
+
     _checks.register('vrec4', Rec4)
     _checks.register('vrec3', Rec3)
+    _checks.register('vrec43', Rec43)
+    _checks.register('vrec34', Rec34)
 
 
 BODIES4 = ['L', 'not L', 'L and @', '! or L', 'not (L and @)',
@@ -337,7 +351,8 @@ BODIES4 = ['L', 'not L', 'L and @', '! or L', 'not (L and @)',
 def run_current_rule(acc):
     _register()
     enf = world.bare_enforcer()
-    for kind in ('vrec4', 'vrec3'):
+    # parents are evaluated before the subclasses, and once more after them
+    for kind in ('vrec4', 'vrec3', 'vrec43', 'vrec34', 'vrec4', 'vrec3'):
         for body in BODIES4:
             for val in ('t', 'f'):
                 leaf = '%s:%s' % (kind, val)
@@ -370,7 +385,7 @@ def run_current_rule(acc):
                                       'custom check was never called', case,
                                       'called', 'not called', 'S4')
                     for k, m, cur in RECORD:
-                        if k == 'vrec4' and cur != name:
+                        if k in ('vrec4', 'vrec43') and cur != name:
                             acc.violation(
                                 'S4|current_rule|depth=%d' % min(depth, 1),
                                 'nested check was told current_rule=%r while '
